@@ -1,7 +1,7 @@
 (* C19 — provided networks are pointwise maps with the requested architecture.
    Lemmas about model/Networks.v (hand model, validated against the real modules by
    tools/props/C19.py) and about the terms pyfront regenerates into gen/Gen_C19.v. *)
-From Coq Require Import Reals List Arith Lia Lra Field.
+From Coq Require Import Reals List Arith Lia Lra Field ZArith.
 From ND.lib Require Import Expr Tac.
 From ND.model Require Import Networks.
 From ND.gen Require Import Gen_C19.
@@ -145,6 +145,20 @@ Proof. reflexivity. Qed.
 
 Example fcnn_no_hidden_ex : fcnn_layers 4 1 [] = [Linear 4 1 true].
 Proof. reflexivity. Qed.
+
+(* ---- module identity: no module object appears twice in the Sequential *)
+Lemma module_ids_nodup ls : NoDup (module_ids ls).
+Proof. apply seq_NoDup. Qed.
+
+Lemma module_ids_length ls : length (module_ids ls) = length ls.
+Proof. apply seq_length. Qed.
+
+(* the identity pattern read from the constructor source (pyfront: one object per call) is the model's *)
+Lemma module_ids_generated :
+  FCNN_ids_h3.terms = map (fun k => ECst (Z.of_nat k)) (module_ids (fcnn_layers 2 3 [4; 5; 6]%nat))
+  /\ FCNN_ids_h0.terms = map (fun k => ECst (Z.of_nat k)) (module_ids (fcnn_layers 2 3 []))
+  /\ Resnet_ids_h2.terms = map (fun k => ECst (Z.of_nat k)) (module_ids (fst (resnet_init 2 3 None None (Some [4; 5]%nat)))).
+Proof. repeat split; reflexivity. Qed.
 
 (* ================================================================== row-wise forward *)
 
